@@ -63,6 +63,11 @@ CHECKS = {
         technique='trace validation: mappings returned by sourcemap.write for synthetic fragment-kind sequences (exhaustive to length n) and for real printer streams are decoded by the TLA+ decoder SourceMapV3.tla and every explicitly positioned fragment is looked up at its generated position (MapTrace.tla, TLC batches)',
         text='For every sequence up to length n over 18 fragment kinds (positioned, renamed shorter/longer, inferred, unmapped, newline variants, multi-line tokens with LF and CR, source changes, NotImplemented source) x normalize x first-source variant, and for the fragment streams of the pretty / minify / obfuscating printers on TLC-derived programs (one and two sources): decoding the returned mappings with a decoder written from the Source Map V3 format must map the generated position of each explicitly positioned fragment to its source, line, column (by interpolation only when normalising) and original name; indices in range, generated columns non-decreasing, number of mapping lines = number of text lines; the VLQ string decodes to the raw tuples.',
         note='Trusted: generated positions computed by the harness from the written text; streams that split a CR LF pair over two fragments are excluded as not well-formed; an empty-text fragment is not taken to say anything about the current source (write() skips it - noted in DESIGN).'),
+    'C18': dict(
+        category='fault_enumeration', design_ref='5 (C18)',
+        technique='TLA+ model of the io.write / io.read step sequence with every fault point (IOWrite.tla), model-checked by TLC against the stream contract; every behaviour replayed against the real helpers with instrumented stream doubles raising at the chosen call; recorded event logs validated by StreamTrace.tla',
+        text='TLC enumerates every arrangement (output as factory or open stream; map as none, factory, open stream or the same argument; one node, list, generator) x every fault point (factory call, k-th write for every k, unparser raising midway, map factory, writelines, map write; for read: factory, read(), parse error) and checks the modelled step sequence against the contract; each behaviour is replayed against the real code for several programs, printers and absolute/relative names; TLC judges every recorded log: factory streams closed exactly once, passed-in streams never closed, no use after close, the injected failure propagates (syntax errors re-labelled with the stream name), and on success output text, sourceMappingURL and map content equal what the lower-level API yields.',
+        note='Faults are exceptions raised by the doubles; close() itself never fails; content facts are computed by the harness from the lower-level API (sourcemap.write, verify_write_sourcemap_args, encode_sourcemap).'),
 }
 
 NOT_YET = {}
